@@ -19,7 +19,7 @@
      elements, a separator before each (x_render); the run compares every reported XML path with that.  For XML there is
      no standard to compare the paths with (T_C08_paths_xml_example shows what they cannot tell apart). *)
 From BS Require Import Base UtfSpec UtfModel JxJsonSpec JxJsonProofs JxJsonSound JxXmlSpec JxXmlProofs JxXmlSound JxModel JxProofs JxMemberOrder
-  JxPathModel JxPathProofs JxXmlOptions.
+  JxPathModel JxPathProofs JxXmlOptions JxDetect JxDetectProofs.
 From Coq Require Import Permutation.
 Local Open Scope N_scope.
 
@@ -331,3 +331,56 @@ Example T_C08_xml_options_example :
     xml_decl_text ++ [60; 97; 62; 60; 98; 47; 62; 60; 47; 97; 62].
 Proof. exact xml_options_example. Qed.
 Print Assumptions T_C08_xml_options_example.
+
+(* ---------------------------------------------------------------- reading a JSON stream: which encoding is it in *)
+
+(* JxDetect.v: rj_detect is RapidJSON's AutoUTFInputStream::DetectType as a function of the first bytes (the five byte
+   order marks, then the pattern of zero bytes of RFC 4627 section 3, nothing at all on fewer than four bytes: the default
+   UTF-8); rj_read = detect, skip what detection consumed, decode strictly in the detected scheme.  Third party: the
+   extracted rj_detect is what the model driver uses for every stream load of the run, and it is compared with the
+   implementation on short and adversarial prefixes (m.detect).
+
+   (a) with a byte order mark the encoding is always recognised and exactly the mark is consumed (a text never starts
+       with U+0000) *)
+Theorem T_C08_stream_detect_bom : forall t text, Forall scalar text -> match text with a :: _ => a <> 0 | [] => False end ->
+  rj_detect (rj_bom t ++ rj_body t text) = (t, length (rj_bom t)).
+Proof. exact detect_bom. Qed.
+Print Assumptions T_C08_stream_detect_bom.
+
+(* (b) without one, every text whose first two characters are ASCII (U+0001..U+007F) is recognised in all five encodings;
+       UTF-8 is recognised for every text that does not itself begin with U+FEFF or contain U+0000 among its first two *)
+Theorem T_C08_stream_detect_ascii : (forall t text, Forall scalar text -> ascii2 text = true -> rj_detect (rj_body t text) = (t, 0%nat)) /\
+  (forall text, Forall scalar text -> utf8_ok text = true -> rj_detect (rj_body kUTF8 text) = (kUTF8, 0%nat)).
+Proof. split; [exact detect_ascii2 | exact detect_utf8_nobom]. Qed.
+Print Assumptions T_C08_stream_detect_ascii.
+
+(* (c) the exact class for UTF-16 / UTF-32 without a BOM (finding J46; C01's F50), a boolean: recognised iff the first
+       two characters (UTF-16) / the first character (UTF-32) exist and lie in U+0001..U+00FF (nobom_ok).  Outside it the
+       stream is taken for something else: a one-character document in UTF-16 has two bytes and stays UTF-8; a character
+       from U+0100 on among the first two (a root string of CJK text) breaks the zero pattern *)
+Theorem T_C08_stream_detect_outside : forall t text, t <> kUTF8 -> Forall scalar text ->
+  (rj_detect (rj_body t text) = (t, 0%nat) <-> nobom_ok t text = true).
+Proof. exact detect_nobom_exact. Qed.
+Print Assumptions T_C08_stream_detect_outside.
+
+Example T_C08_stream_detect_refuted :
+  rj_detect (rj_body kUTF16BE [49]) = (kUTF8, 0%nat) /\
+  rj_detect (rj_body kUTF16LE [34; 0x4E2D; 34]) = (kUTF8, 0%nat) /\
+  rj_detect (rj_body kUTF32BE [0x4E2D]) = (kUTF8, 0%nat) /\
+  rj_read (rj_body kUTF16BE [49]) <> Some [49].
+Proof. exact detect_refuted. Qed.
+Print Assumptions T_C08_stream_detect_refuted.
+
+(* (d) composed with T_C08_options_passed (rj_put (json_writer o) is the text in the configured scheme, U+FEFF first iff
+       writeBom): what is written to a stream under options o is read back as the same text whenever a BOM is written or
+       the text is in the class of (b)/(c) (stream_detectable, a boolean of options and text); in particular every text
+       starting with two ASCII characters, hence every array or object document (json_print_cps; a pretty one starts
+       with the bracket and a line feed), for all five encodings with and without BOM *)
+Theorem T_C08_stream_roundtrip :
+  (forall o cps, so_stream o = true -> Forall scalar cps -> match cps with a :: _ => a <> 0 | [] => False end ->
+     stream_detectable o cps = true -> rj_read (rj_put (json_writer o) cps) = Some cps) /\
+  (forall o cps, so_stream o = true -> Forall scalar cps -> ascii2 cps = true -> rj_read (rj_put (json_writer o) cps) = Some cps) /\
+  (forall o d, so_stream o = true -> jwf d -> match d with JArr _ | JObj _ => True | _ => False end ->
+     rj_read (rj_put (json_writer o) (json_print_cps d)) = Some (json_print_cps d)).
+Proof. split; [exact stream_roundtrip | split; [exact stream_roundtrip_ascii2 | exact stream_roundtrip_document]]. Qed.
+Print Assumptions T_C08_stream_roundtrip.
